@@ -308,7 +308,7 @@ func generate(n int) []tcase {
 				_ = json.Unmarshal(ab, &a)
 				strsT, numsT, ok := map[string][]int{}, map[string]int{}, true
 				collectLits(a, strsT, numsT, &ok)
-				if ok && inCoreShape(a) && !hasNonASCII(string(vb)) {
+				if ok && inCoreShape(a) && !hasNonASCII(string(vb)) && !strings.Contains(string(c.Input), `"t":"big"`) && !strings.Contains(string(c.Inputs), `"t":"big"`) {
 					c.Ast = ab
 					strsT["a"] = []int{97} // TLC needs non-empty records of one shape
 					numsT["0"] = 0
